@@ -12,7 +12,7 @@ import qp  # noqa: E402
 from common import Ctx, load_known_findings  # noqa: E402
 from translate import c12gen  # noqa: E402
 
-LEAN_TARGETS = ["QuriVerif.Props.C12", "QuriVerif.Props.C12Lift", "QuriVerif.Driver.C12"]
+LEAN_TARGETS = ["QuriVerif.Props.C12", "QuriVerif.Props.C12Lift", "QuriVerif.Props.C12Phase", "QuriVerif.Driver.C12"]
 
 KNOWN = {"inv_U2": "inverse_gate.U2", "inv_U3": "inverse_gate.U3"}
 
@@ -1244,12 +1244,13 @@ def run(ctx: Ctx, replay=None) -> int:
     ]
     ctx.assumptions = ["scale factors ≥ 1", "gates are unitary"]
     table = gen(ctx)
-    ok = ctx.prove(["QuriVerif.Props.C12", "QuriVerif.Props.C12Lift", "QuriVerif.Driver.C12"],
-                   ["QuriVerif.Props.C12", "QuriVerif.Props.C12Lift", "QuriVerif.Generated.C12Inverse"])
+    ok = ctx.prove(["QuriVerif.Props.C12", "QuriVerif.Props.C12Lift", "QuriVerif.Props.C12Phase", "QuriVerif.Driver.C12"],
+                   ["QuriVerif.Props.C12", "QuriVerif.Props.C12Lift", "QuriVerif.Props.C12Phase", "QuriVerif.Generated.C12Inverse"])
     if ok:
         names = [f"QV.Props.C12.{n}" for _, n, _ in ctx.count_obligations(["QuriVerif.Props.C12"])]
         names += [f"QV.Props.C12Lift.{n}" for _, n, _ in ctx.count_obligations(["QuriVerif.Props.C12Lift"]) if n != "circ_ok"]
-        ctx.audit(names, ["QuriVerif.Props.C12", "QuriVerif.Props.C12Lift"])
+        names += [f"QV.Props.C12Phase.{n}" for _, n, _ in ctx.count_obligations(["QuriVerif.Props.C12Phase"])]
+        ctx.audit(names, ["QuriVerif.Props.C12", "QuriVerif.Props.C12Lift", "QuriVerif.Props.C12Phase"])
         _guard(ctx, "correspond", lambda c: (check_translation_instances(c, table), correspond(c)))
     budget = (8 if ctx.quick() else 120) * (1 if ok and not ctx.disagreements else 3)
     _guard(ctx, "oracle_validation", lambda c: validate(c, budget))
